@@ -970,7 +970,7 @@ def _vector_interpolate(base, data):
 
     # pylint: disable=not-an-iterable
     for ind in np.ndindex(*res.shape):
-        res[ind] = base([d[ind] for d in data])
+        res[ind] = base([d[ind] for d in data])[0]
 
     return res
 
@@ -1000,7 +1000,7 @@ def _make_ifn(base):
             ndata = [np.ones(shape) * d for d in mdata]
             return _vector_interpolate(base, ndata)
         else:
-            return _vector_interpolate(base, ndata)
+            return _vector_interpolate(base, mdata)
 
     return ifn
 
